@@ -71,6 +71,12 @@ Theorem C11_outgoing_messages_leave_unchanged : forall plane s d q,
   snd (sstep plane s (ODlSend d q)) = [DFrame (FReq q)].
 Proof. exact outgoing_messages_leave_unchanged. Qed.
 
+(* ... and so does what a send-only client (the path of an agent's ad hoc commands to a remote lane) sends *)
+Theorem C11_sender_messages_leave_unchanged : forall plane s d q,
+  s_stopped s = false -> memN d (s_senders s) = true -> memN d (s_gone s) = false ->
+  snd (sstep plane s (ODlSend d q)) = [DFrame (FReq q)].
+Proof. exact sender_messages_leave_unchanged. Qed.
+
 (* the clean-up case is reachable: two lanes of one node, the only downlink of one has gone *)
 Theorem C11_cleanup_witness :
   let p1 := {| p_kind := PEvent; p_node := 1; p_lane := 0; p_body := Some 901 |} in
